@@ -123,7 +123,16 @@ func genNames(g *G, quick int) {
 		emitName(g, "a."+tld+"x")
 	}
 	// an ACE label in every position of a short name
-	for _, ace := range []string{"xn--0", "xn--a-b", "xn--abc-", "xn--e1afmkfd", "XN--E1AFMKFD", "xn--", "xn---"} {
+	// every byte value as a whole label, inside a label and at its ends, in first, inner and last position
+	for b := 0; b < 256; b++ {
+		c := string([]byte{byte(b)})
+		for _, name := range []string{c + ".com", "host" + c + ".example.com", "a" + c + "c.b", "x.a" + c, "x." + c + "a", "_s" + c + ".x.com", "x.y" + c + "z.com", c} {
+			emitName(g, name)
+		}
+	}
+	for _, ace := range []string{"xn--0", "xn--a-b", "xn--abc-", "xn--e1afmkfd", "XN--E1AFMKFD", "xn--", "xn---",
+		// the ACE prefix in upper and mixed case
+		"XN--1", "Xn--1", "xN--1", "XN--COM-", "Xn--a-b", "XN--0", "XN--", "XN--ABC-", "xn--1", "xn--com-"} {
 		for _, shape := range []string{"%s", "%s.com", "www.%s", "www.%s.com", "a.b.%s.c", "_srv.%s.com", "%s.%s"} {
 			emitName(g, strings.ReplaceAll(shape, "%s", ace))
 		}
